@@ -1,1 +1,37 @@
 // harness bodies for h2 src/frame/headers.rs (compiled in-crate as `verif_h`, feature "verif")
+use super::*;
+
+/// C13.len: `parse_u64` returns the mathematical value of every string of <= 19 decimal
+/// digits, rejects everything else (non-digits, more than 19 octets) and never
+/// overflows.  (The empty string yields 0: RFC 9110 wants 1*DIGIT; the property speaks
+/// of lengths that disagree with the DATA received, so that is not asserted.)
+pub fn c13_len_parse_u64() {
+    let b: [u8; 21] = kani::any();
+    let n: usize = kani::any();
+    kani::assume(n <= 21);
+    let r = parse_u64(&b[..n]);
+    // reference
+    let mut all_digits = true;
+    let mut val: u128 = 0;
+    let mut i = 0;
+    while i < 21 {
+        if i < n {
+            if b[i] < b'0' || b[i] > b'9' {
+                all_digits = false;
+            } else {
+                val = val * 10 + (b[i] - b'0') as u128;
+            }
+        }
+        i += 1;
+    }
+    match r {
+        Ok(v) => {
+            assert!(all_digits && n <= 19, "parse_u64 accepted a malformed content-length");
+            assert!(v as u128 == val, "parse_u64 value differs from the decimal value");
+        }
+        Err(_) => assert!(!all_digits || n > 19, "parse_u64 rejected a well-formed content-length"),
+    }
+    kani::cover!(matches!(r, Ok(v) if v > u32::MAX as u64), "large");
+    kani::cover!(r.is_err() && n <= 19, "non_digit");
+    kani::cover!(true, "end");
+}
